@@ -51,6 +51,7 @@ var (
 	flagVrt    = flag.String("vrt", "/verif/vrt", "runtime package sources")
 	flagOut    = flag.String("out", "/verif/.work/overlay", "output directory")
 	flagAccess = flag.Bool("access", true, "instrument field accesses")
+	flagMod    = flag.String("modflag", "", "extra build flag (-modfile=...) when the repository is not at /repo")
 	flagChan   = flag.Bool("chan", true, "model channel, select and sync/atomic operations")
 )
 
@@ -69,7 +70,7 @@ func run() error {
 	}
 	cfg := &packages.Config{
 		Mode:       packages.NeedName | packages.NeedFiles | packages.NeedSyntax | packages.NeedTypes | packages.NeedTypesInfo | packages.NeedImports | packages.NeedDeps,
-		BuildFlags: []string{"-tags=verif"},
+		BuildFlags: append([]string{"-tags=verif"}, strings.Fields(*flagMod)...),
 		Env:        append(os.Environ(), "GOFLAGS=-mod=mod", "GOPROXY=off", "GOSUMDB=off", "GOTOOLCHAIN=local"),
 	}
 	pkgs, err := packages.Load(cfg, targets...)
